@@ -1,12 +1,12 @@
 #!/bin/bash
-# ./seedcheck.sh <Cnn> [srcdir] [check ...]  — validates an independently written breaking change
+# ./seedcheck.sh <Cnn> [srcdir] [name] [check ...]  — validates an independently written breaking change
 # (patch.diff + demo) in a scratch worktree of /repo and runs the given checks (default: Cnn) against it.
 # srcdir defaults to /tmp/seedout_<Cnn>; results are stored under /verif/seeded/<Cnn>/.
-prop=$1; src=${2:-/tmp/seedout_$1}; shift; shift
+prop=$1; src=${2:-/tmp/seedout_$1}; name=${3:-$1}; shift; shift; shift
 checks=${@:-$prop}
 export GOFLAGS=-mod=mod GOPROXY=off GOSUMDB=off GOTOOLCHAIN=local
 WT=/tmp/sc_$prop.$$
-dst=/verif/seeded/$prop
+dst=/verif/seeded/$name
 mkdir -p $dst
 cp $src/patch.diff $dst/patch.diff || exit 2
 demo=$(ls $src/*.go | head -1)
